@@ -85,7 +85,7 @@ Parked == IF cur = 0 THEN saved ELSE (cur :> LiveRec) @@ saved
 SInit ==
   /\ rs = 1 /\ inited = FALSE /\ opt = [interactive |-> TRUE, array |-> FALSE, lno |-> TRUE, bolneeded |-> TRUE,
                       rejectmode |-> FALSE, bufsize |-> 0, strictread |-> TRUE, reentrant |-> FALSE,
-                      userwrap |-> FALSE]
+                      userwrap |-> FALSE, failalloc |-> 0, stdio |-> FALSE, yylmax |-> 8192]
   /\ files = <<>> /\ yyin = 1 /\ cur = 1 /\ bstack = <<1>> /\ saved = <<>> /\ fid = 1 /\ fresh = TRUE
   /\ buf = <<>> /\ eof = FALSE /\ bol = TRUE
   /\ sc = 0 /\ stk = <<>> /\ lineno = 1
@@ -120,7 +120,8 @@ Call ==
 \* buffered.  A "new" buffer reads from what yyin designates at that moment.
 ReadFile == IF fresh THEN yyin ELSE fid
 Read(got) ==
-  /\ cur # 0 /\ ~eof /\ ReadFile # 0 /\ ReadFile <= Len(files)
+  \* (through stdio an exhausted source may be asked again: the scanner does not see every empty read)
+  /\ cur # 0 /\ (~eof \/ (got = 0 /\ opt.stdio)) /\ ReadFile # 0 /\ ReadFile <= Len(files)
   /\ got <= Len(files[ReadFile]) /\ (got = 0 => files[ReadFile] = <<>>)
   /\ \/ phase = "scan" /\ (opt.strictread => ~MatchDecided)
      \/ phase = "act" /\ (opt.strictread => buf = <<>>)
@@ -374,6 +375,11 @@ FatalRejectOverflow ==   \* REJECT scanner whose token does not fit its non-grow
   /\ UNCHANGED <<rs, inited, opt, bvars, cvars, lineno, kvars, wfrom, switched, hist>>
 FatalPushback ==         \* yyunput() beyond the push-back capacity (the buffer is full of pending text)
   /\ phase = "act" /\ opt.bufsize > 0 /\ Len(buf) + 3 >= opt.bufsize
+  /\ phase' = "fatal"
+  /\ UNCHANGED <<rs, inited, opt, bvars, cvars, lineno, kvars, wfrom, switched, hist>>
+FatalTooLarge ==         \* %array: the token (with what yymore() kept) does not fit yytext[YYLMAX]
+  /\ opt.array /\ phase = "scan" /\ cur # 0 /\ MatchDecided /\ buf # <<>>
+  /\ LET cs == CandSeq(buf, bol) IN cs # <<>> /\ Len(pfx) + cs[1][2] >= opt.yylmax
   /\ phase' = "fatal"
   /\ UNCHANGED <<rs, inited, opt, bvars, cvars, lineno, kvars, wfrom, switched, hist>>
 =============================================================================
